@@ -5,12 +5,9 @@ AAC configuration, one tag per carried frame).
 -/
 import IpcHub.Lemmas.FlvWriter
 import IpcHub.Lemmas.FlvBody
+import IpcHub.Model.FlvAssume
 namespace IpcHub.FlvLemmas
 open IpcHub.Flv IpcHub.FlvSpec
-
-/-- what the property needs to know about the stream, read off the muxer's metadata -/
-def srcOf (vm : VideoMeta) (am : AudioMeta) : Src :=
-  { codec := vm.codec, aac := am.aac, sps := vm.sps, pps := vm.pps, vps := vm.vps, asc := am.asc }
 
 /-- admissible frame: a video frame has at least one byte (the NAL header), the tag body fits
     the 24-bit DataSize, the tag time lies in the signed 32-bit window of FLV timestamps and the
@@ -84,11 +81,11 @@ theorem isMetaTag_view (vm : VideoMeta) (am : AudioMeta) (date : Bytes) (d : UIn
   cases hc : am.aac <;> by_cases h5 : vm.codec = .h265 <;> simp +decide [h5, hname, f7, f12, f10, tagTypeScript]
 
 theorem applyPLT_lsm (r : HevcRecord) (p : HevcPtl) :
-    (applyPLT r p).lengthSizeMinusOne = r.lengthSizeMinusOne := by
-  unfold applyPLT
-  dsimp only
-  repeat' split
-  all_goals rfl
+    (applyPLT r p).lengthSizeMinusOne = r.lengthSizeMinusOne := rfl
+
+theorem raiseSubLayers_lsm (r : HevcRecord) (m : UInt8) :
+    (raiseSubLayers r m).lengthSizeMinusOne = r.lengthSizeMinusOne := by
+  unfold raiseSubLayers; split <;> rfl
 
 theorem hevcInit_lsm (v : Option HevcVpsInfo) (s : Option HevcSpsInfo) :
     (hevcInit v s).lengthSizeMinusOne = 3 := by
@@ -97,22 +94,178 @@ theorem hevcInit_lsm (v : Option HevcVpsInfo) (s : Option HevcSpsInfo) :
   | none => rfl
   | some v =>
     cases s with
-    | none => dsimp only; split <;> simp [applyPLT_lsm]
-    | some s => dsimp only; repeat' split
-                all_goals simp [applyPLT_lsm]
+    | none => simp only [applyPLT_lsm, raiseSubLayers_lsm]
+    | some s => simp only [applyPLT_lsm, raiseSubLayers_lsm]
+
+/-! ### general profile/tier/level of the HEVC record -/
+
+theorem ptlNat_inj (p q : HevcPtl) (h : ptlNat p = ptlNat q) : p = q := by
+  cases p; cases q
+  simp only [ptlNat, Ptl.mk.injEq] at h
+  obtain ⟨h1, h2, h3, h4, h5, h6⟩ := h
+  simp only [HevcPtl.mk.injEq]
+  exact ⟨UInt8.toNat_inj.1 h1, UInt8.toNat_inj.1 h2, UInt8.toNat_inj.1 h3, UInt32.toNat_inj.1 h4,
+    UInt64.toNat_inj.1 h5, UInt8.toNat_inj.1 h6⟩
+
+theorem u8_max_self (x : UInt8) : (if x > 0 then x else 0) = x := by
+  split
+  · rfl
+  · rename_i h
+    have : x ≤ 0 := UInt8.not_lt.1 h
+    exact (UInt8.le_zero_iff.1 this).symm
+
+theorem raiseSubLayers_ptl (r : HevcRecord) (m : UInt8) :
+    (raiseSubLayers r m).space = r.space ∧ (raiseSubLayers r m).tier = r.tier ∧ (raiseSubLayers r m).idc = r.idc ∧
+    (raiseSubLayers r m).compat = r.compat ∧ (raiseSubLayers r m).constraint = r.constraint ∧
+    (raiseSubLayers r m).level = r.level ∧ (raiseSubLayers r m).lengthSizeMinusOne = r.lengthSizeMinusOne := by
+  unfold raiseSubLayers
+  split <;> exact ⟨rfl, rfl, rfl, rfl, rfl, rfl, rfl⟩
+
+/-- VPS and SPS agree on the general profile/tier/level `p`: the record carries `p` -/
+theorem hevcInit_agree (v : HevcVpsInfo) (s : HevcSpsInfo) (p : HevcPtl) (hv : v.ptl = p) (hs : s.ptl = p)
+    (hc : p.constraint.toNat < 281474976710656) :
+    (hevcInit (some v) (some s)).space = p.space ∧ (hevcInit (some v) (some s)).tier = p.tier ∧
+    (hevcInit (some v) (some s)).idc = p.idc ∧ (hevcInit (some v) (some s)).compat = p.compat ∧
+    (hevcInit (some v) (some s)).constraint = p.constraint ∧ (hevcInit (some v) (some s)).level = p.level := by
+  have hones32 : (0xffffffff : UInt32) = -1 := by decide
+  have hcon : (0xffffffffffff : UInt64) &&& p.constraint = p.constraint := by
+    apply UInt64.toNat_inj.1
+    rw [UInt64.toNat_and]
+    have : (0xffffffffffff : UInt64).toNat = 2 ^ 48 - 1 := by decide
+    rw [this, Nat.and_comm, Nat.and_two_pow_sub_one_eq_mod]
+    exact Nat.mod_eq_of_lt hc
+  have ht : ∀ x : UInt8, ¬ x > x := fun x => UInt8.lt_irrefl x
+  obtain ⟨a1, a2, a3, a4, a5, a6, _⟩ := raiseSubLayers_ptl {} v.maxSubLayersMinus1
+  -- after the VPS: the record carries p
+  have r1 : let r := applyPLT (raiseSubLayers {} v.maxSubLayersMinus1) p
+      r.space = p.space ∧ r.tier = p.tier ∧ r.idc = p.idc ∧ r.compat = p.compat ∧ r.constraint = p.constraint ∧ r.level = p.level := by
+    refine ⟨rfl, ?_, ?_, ?_, ?_, ?_⟩
+    · show (if p.tier > (raiseSubLayers {} v.maxSubLayersMinus1).tier then p.tier else _) = _
+      rw [a2]; exact u8_max_self p.tier
+    · show (if p.idc > (raiseSubLayers {} v.maxSubLayersMinus1).idc then p.idc else _) = _
+      rw [a3]; exact u8_max_self p.idc
+    · show (raiseSubLayers {} v.maxSubLayersMinus1).compat &&& p.compat = _
+      rw [a4]; show (0xffffffff : UInt32) &&& p.compat = _
+      rw [hones32]; exact UInt32.neg_one_and
+    · show (raiseSubLayers {} v.maxSubLayersMinus1).constraint &&& p.constraint = _
+      rw [a5]; exact hcon
+    · show (if p.tier > (raiseSubLayers {} v.maxSubLayersMinus1).tier then p.level
+            else if p.level > (raiseSubLayers {} v.maxSubLayersMinus1).level then p.level
+            else (raiseSubLayers {} v.maxSubLayersMinus1).level) = _
+      rw [a2, a6]
+      by_cases hp : p.tier > (0 : UInt8)
+      · have : p.tier > ({} : HevcRecord).tier := hp
+        simp [this]
+      · have : ¬ p.tier > ({} : HevcRecord).tier := hp
+        simp only [this, if_false]; exact u8_max_self p.level
+  obtain ⟨b1, b2, b3, b4, b5, b6⟩ := r1
+  simp only [hevcInit, hv, hs]
+  obtain ⟨c1, c2, c3, c4, c5, c6, _⟩ := raiseSubLayers_ptl (applyPLT (raiseSubLayers {} v.maxSubLayersMinus1) p) s.maxSubLayersMinus1
+  refine ⟨rfl, ?_, ?_, ?_, ?_, ?_⟩
+  · show (if p.tier > (raiseSubLayers _ s.maxSubLayersMinus1).tier then p.tier else (raiseSubLayers _ s.maxSubLayersMinus1).tier) = _
+    rw [c2, b2]; simp [ht]
+  · show (if p.idc > (raiseSubLayers _ s.maxSubLayersMinus1).idc then p.idc else (raiseSubLayers _ s.maxSubLayersMinus1).idc) = _
+    rw [c3, b3]; simp [ht]
+  · show (raiseSubLayers _ s.maxSubLayersMinus1).compat &&& p.compat = _
+    rw [c4, b4]; exact UInt32.and_self
+  · show (raiseSubLayers _ s.maxSubLayersMinus1).constraint &&& p.constraint = _
+    rw [c5, b5]; exact UInt64.and_self
+  · show (if p.tier > (raiseSubLayers _ s.maxSubLayersMinus1).tier then p.level
+          else if p.level > (raiseSubLayers _ s.maxSubLayersMinus1).level then p.level
+          else (raiseSubLayers _ s.maxSubLayersMinus1).level) = _
+    rw [c2, c6, b2, b6]; simp [ht]
+
+theorem ptlAt_bounds (off : Nat) (nal : Bytes) (a : Ptl) (h : ptlAt off nal = some a) :
+    a.space < 4 ∧ a.tier < 2 ∧ a.idc < 32 ∧ a.constraint < 281474976710656 := by
+  unfold ptlAt at h
+  split at h
+  · rename_i b c1 c2 c3 c4 g1 g2 g3 g4 g5 g6 lvl _ _
+    have hb : ∀ x : UInt8, (x >>> 6).toNat < 4 ∧ ((x >>> 5) &&& 1).toNat < 2 ∧ (x &&& 0x1F).toNat < 32 := by
+      apply forall_u8
+      set_option maxRecDepth 8192 in decide
+    obtain ⟨h1, h2, h3⟩ := hb b
+    have e := (Option.some.inj h).symm
+    subst e
+    refine ⟨h1, h2, h3, ?_⟩
+    have := g1.toNat_lt; have := g2.toNat_lt; have := g3.toNat_lt
+    have := g4.toNat_lt; have := g5.toNat_lt; have := g6.toNat_lt
+    simp only [u16, u32]
+    omega
+  · cases h
+
+/-- the first general byte of the record, recomposed from in-range fields, splits back into them -/
+theorem ptl_byte_fields : ∀ sp : Fin 4, ∀ ti : Fin 2, ∀ idc : Fin 32,
+    let b : UInt8 := (UInt8.ofNat sp.val <<< 6) ||| (UInt8.ofNat ti.val <<< 5) ||| UInt8.ofNat idc.val
+    (b >>> 6).toNat = sp.val ∧ ((b >>> 5) &&& 1).toNat = ti.val ∧ (b &&& 0x1F).toNat = idc.val := by
+  set_option maxRecDepth 8192 in decide
+
+/-- the HEVC record carries the parameter sets' general profile/tier/level where the property
+    demands it (VPS and SPS state the same values), given faithful decoders -/
+theorem hevc_ptl_ok (vm : VideoMeta) (hf : hevcFaithful vm = true) (h : Hvcc)
+    (h1 : h.profileSpace = (((hevcInit vm.hevcVps vm.hevcSps).space <<< 6 ||| (hevcInit vm.hevcVps vm.hevcSps).tier <<< 5 |||
+            (hevcInit vm.hevcVps vm.hevcSps).idc) >>> 6).toNat)
+    (h2 : h.tier = ((((hevcInit vm.hevcVps vm.hevcSps).space <<< 6 ||| (hevcInit vm.hevcVps vm.hevcSps).tier <<< 5 |||
+            (hevcInit vm.hevcVps vm.hevcSps).idc) >>> 5) &&& 1).toNat)
+    (h3 : h.profileIdc = (((hevcInit vm.hevcVps vm.hevcSps).space <<< 6 ||| (hevcInit vm.hevcVps vm.hevcSps).tier <<< 5 |||
+            (hevcInit vm.hevcVps vm.hevcSps).idc) &&& 0x1F).toNat)
+    (h4 : h.compat = (hevcInit vm.hevcVps vm.hevcSps).compat.toNat)
+    (h5 : h.level = (hevcInit vm.hevcVps vm.hevcSps).level.toNat)
+    (h6 : (hevcInit vm.hevcVps vm.hevcSps).constraint.toNat < 281474976710656 →
+      h.constraint = (hevcInit vm.hevcVps vm.hevcSps).constraint.toNat) :
+    ∀ a b, spsPtl vm.sps = some a → vpsPtl vm.vps = some b →
+      (!decide (a = b) || (decide (h.profileSpace = a.space) && decide (h.tier = a.tier) && decide (h.profileIdc = a.idc) &&
+                 decide (h.compat = a.compat) && decide (h.constraint = a.constraint) && decide (h.level = a.level))) = true := by
+  unfold hevcFaithful at hf
+  intro a b hsp hvp
+  · · simp only [hsp, hvp] at hf ⊢
+      by_cases hab : a = b
+      · subst hab
+        simp only [ne_eq, not_true_eq_false, decide_false, Bool.false_or] at hf ⊢
+        cases hv : vm.hevcVps with
+        | none => simp [hv] at hf
+        | some v =>
+          cases hs : vm.hevcSps with
+          | none => simp [hv, hs] at hf
+          | some s =>
+            simp only [hv, hs, Bool.and_eq_true, decide_eq_true_eq] at hf
+            obtain ⟨hva, hsa⟩ := hf
+            have hvs : v.ptl = s.ptl := ptlNat_inj _ _ (hva.trans hsa.symm)
+            obtain ⟨ba, bb, bc, bd⟩ := ptlAt_bounds 3 vm.sps a hsp
+            have hcon : s.ptl.constraint.toNat < 281474976710656 := by
+              have : s.ptl.constraint.toNat = a.constraint := by rw [← hsa]; rfl
+              omega
+            obtain ⟨r1, r2, r3, r4, r5, r6⟩ := hevcInit_agree v s s.ptl hvs rfl hcon
+            rw [hv, hs] at h1 h2 h3 h4 h5 h6
+            rw [r1, r2, r3] at h1 h2 h3
+            rw [r4] at h4; rw [r6] at h5; rw [r5] at h6
+            have hsp' : s.ptl.space.toNat = a.space := by rw [← hsa]; rfl
+            have hti' : s.ptl.tier.toNat = a.tier := by rw [← hsa]; rfl
+            have hid' : s.ptl.idc.toNat = a.idc := by rw [← hsa]; rfl
+            have hco' : s.ptl.compat.toNat = a.compat := by rw [← hsa]; rfl
+            have hcn' : s.ptl.constraint.toNat = a.constraint := by rw [← hsa]; rfl
+            have hlv' : s.ptl.level.toNat = a.level := by rw [← hsa]; rfl
+            have key := ptl_byte_fields ⟨s.ptl.space.toNat, by omega⟩ ⟨s.ptl.tier.toNat, by omega⟩ ⟨s.ptl.idc.toNat, by omega⟩
+            simp only [UInt8.ofNat_toNat] at key
+            obtain ⟨k1, k2, k3⟩ := key
+            rw [k1] at h1; rw [k2] at h2; rw [k3] at h3
+            have h6' := h6 hcon
+            simp only [h1, h2, h3, h4, h5, h6', hsp', hti', hid', hco', hcn', hlv', decide_true, Bool.and_self]
+            rfl
+      · simp [hab]
 
 /-- the video sequence-header tag exists once the parameter sets are usable, is well-formed and
     is the configuration tag the property demands -/
 theorem videoConfig_ok (vm : VideoMeta) (am : AudioMeta) (hcodec : vm.codec ≠ .other)
-    (hready : videoMetaReady vm = true)
+    (hready : videoMetaReady vm = true) (hfaith : hevcFaithful vm = true)
     (hs : vm.sps.length < 65536) (hp : vm.pps.length < 65536) (hv : vm.vps.length < 65536) :
     ∃ t, videoSeqHeaderTag vm = .ok t ∧ t.tagType = 9 ∧ t.timestamp = 0 ∧ t.filter = 0 ∧ t.streamID = 0 ∧
       t.data.length < 16777216 ∧ ∀ d, isVideoConfigTag (srcOf vm am) (viewTag t d) = true := by
   cases hc : vm.codec with
   | other => exact absurd hc hcodec
   | h265 =>
-    obtain ⟨h, hparse, hls, harr, _⟩ := parseHvcc_hevcRecord (hevcInit vm.hevcVps vm.hevcSps) vm.vps vm.sps vm.pps
+    obtain ⟨h, hparse, hls, harr, q1, q2, q3, q4, q5, q6⟩ := parseHvcc_hevcRecord (hevcInit vm.hevcVps vm.hevcSps) vm.vps vm.sps vm.pps
       (hevcInit_lsm _ _) hv hs hp
+    have hptl := hevc_ptl_ok vm hfaith h q1 q2 q3 q4 q5 q6
     have hvb := parseVideoBody_videoData frameTypeKey codecHEVC pktSeqHeader 0
       (hevcRecordBytes (hevcInit vm.hevcVps vm.hevcSps) vm.vps vm.sps vm.pps) (Or.inl rfl) (Or.inr rfl)
     refine ⟨{ tagType := tagTypeVideo, timestamp := 0,
@@ -127,6 +280,12 @@ theorem videoConfig_ok (vm : VideoMeta) (am : AudioMeta) (hcodec : vm.codec ≠ 
       simp only [hpt, if_false] at hvb
       simp only [isVideoConfigTag, viewTag, hvb, srcOf, hc, codecIdOf, hparse, hls, harr]
       simp +decide
+      cases hsp : spsPtl vm.sps with
+      | none => rfl
+      | some a =>
+        cases hvp : vpsPtl vm.vps with
+        | none => rfl
+        | some b => simpa using hptl a b hsp hvp
   | h264 =>
     have hr : vm.sps.length ≥ 4 := by
       simp only [videoMetaReady, hc, Bool.and_eq_true, decide_eq_true_eq] at hready
@@ -421,7 +580,7 @@ theorem muxTypeFlags_facts (am : AudioMeta) :
 /-- C08 for the muxer path, generic in the behaviour switches: see `c08_end_to_end` -/
 theorem checkMux_muxBytes (cfg : Cfg) (hc : Cfg.writerFixed cfg) (hg : cfg.gateParamSets = true)
     (vm : VideoMeta) (am : AudioMeta) (date : Bytes) (known : Nat) (frames : List Frame)
-    (hcodec : vm.codec ≠ .other)
+    (hcodec : vm.codec ≠ .other) (hfaith : hevcFaithful vm = true)
     (hs : vm.sps.length < 65536) (hp : vm.pps.length < 65536) (hv : vm.vps.length < 65536)
     (ha : am.asc.length + 2 < 16777216) (hd : date.length < 65536)
     (hall : ∀ f ∈ fromStart (srcOf vm am) known frames, carried (srcOf vm am) f = true → FrameOk f) :
@@ -435,7 +594,7 @@ theorem checkMux_muxBytes (cfg : Cfg) (hc : Cfg.writerFixed cfg) (hg : cfg.gateP
       simp [fromStart, usable_eq_ready, hr]
     rw [hwant] at hall ⊢
     obtain ⟨hnd, hwfm, hmedia⟩ := mediaTags_spec cfg hc vm am hcodec (frames.drop known) hall
-    obtain ⟨vt, hvt, hvty, hvts, hvf, hvs, hvlen, hvcfg'⟩ := videoConfig_ok vm am hcodec hr hs hp hv
+    obtain ⟨vt, hvt, hvty, hvts, hvf, hvs, hvlen, hvcfg'⟩ := videoConfig_ok vm am hcodec hr hfaith hs hp hv
     have hvcfg := hvcfg' (Writer.rebase cfg { delta := u32OfInt 0, started := true } vt)
     have hvwf : Tag.wf vt := ⟨hvf, hvs, Or.inr (Or.inl hvty), hvlen⟩
     have hseq : seqHeaders vm am date =
